@@ -138,3 +138,36 @@ Definition pctref_ok (c : Z * Z * Z * Z) : bool :=
   let '(fn, comp, n, d) := c in
   match model_pct_ref fn comp with Some (mn, md) => (mn * d =? n * md) | None => false end.
 Definition check_pctref := mismatches pctref_ok.
+
+(* ---- nesting lowering: lower_is on every selector of the nested rule ---- *)
+From V Require Import C12.Nesting.
+Fixpoint cp_eqb (a b : compound) {struct a} : bool :=
+  match a, b with
+  | Cp k1 a1 t1 s1, Cp k2 a2 t2 s2 =>
+    (k1 =? k2) && Bool.eqb a1 a2 &&
+    (match t1, t2 with Some x, Some y => x =? y | None, None => true | _, _ => false end) && sub_eqb s1 s2
+  end
+with sub_eqb (a b : sublist) {struct a} : bool :=
+  match a, b with
+  | SNil, SNil => true
+  | SClass i r, SClass j r' => (i =? j) && sub_eqb r r'
+  | SPc n l r, SPc n' l' r' => Bool.eqb n n' && sl_eqb l l' && sub_eqb r r'
+  | _, _ => false
+  end
+with cx_eqb (a b : complex) {struct a} : bool :=
+  match a, b with
+  | XNil, XNil => true
+  | XCons c r, XCons c' r' => cp_eqb c c' && cx_eqb r r'
+  | _, _ => false
+  end
+with sl_eqb (a b : sellist) {struct a} : bool :=
+  match a, b with
+  | LNil, LNil => true
+  | LCons x r, LCons x' r' => cx_eqb x x' && sl_eqb r r'
+  | _, _ => false
+  end.
+Fixpoint lmap (f : complex -> complex) (l : sellist) : sellist :=
+  match l with LNil => LNil | LCons x r => LCons (f x) (lmap f r) end.
+Definition nest_ok (c : sellist * sellist * sellist) : bool :=
+  let '(parents, child, out) := c in sl_eqb (lmap (lower_is parents) child) out.
+Definition check_nest := mismatches nest_ok.
